@@ -964,6 +964,49 @@ def text_failure_results(repo, tier="quick"):
     return _FCACHE[key]
 
 
+def _text_cost_job(_):
+    """Cost of SmtLibSolver.add_assertion / is_sat on a maximally shared Boolean tower (x' = x & x over a | b<c): the
+    interpreted steps follow the number of nodes (depth + 5), not the number of paths (2^depth)."""
+    shape = Shape(("lit", True, BOOL))
+    INT = ("INT",)
+    depths = (4, 8, 12)
+
+    def call(w, it, f0):
+        it.apply_decorators = {"pysmt.decorators.clear_pending_pop"}
+        logic = it.module_global(w.repo.modules["pysmt.logics"], "QF_UFLIA")
+        a = w.symbol("a", ("BOOL",))
+        b, c = w.symbol("b", INT), w.symbol("c", INT)
+        out = {}
+        for api in ("add_assertion", "is_sat"):
+            costs = []
+            for d in depths:
+                sim = SimSolver(["sat"] * 4, {"a": True, "b": 1, "c": 2})
+                w.sim = sim
+                solver = it.instantiate(ClassRef(SMTLIB_SOLVER), [["sim"], w.env, logic], {})
+                t = w.app("Or", a, w.app("LT", b, c))
+                p_, q_ = w.symbol("p", ("BOOL",)), w.symbol("q", ("BOOL",))
+                for _ in range(d):
+                    t = w.app("And", w.app("Or", t, p_), w.app("Or", t, q_))      # shared, and left alone by simplify()
+                it.call(it.getattr(solver, "add_assertion"), [w.app("Or", p_, q_)])     # warm-up: one-time work of the services
+                s0 = it.cost()
+                it.call(it.getattr(solver, api), [t])
+                costs.append(it.cost() - s0)
+            out[api] = costs
+        return out
+
+    def post(w, f, val, facts):
+        return proc.ProcResult(shape, "valid", val)
+    res = proc.run_proc(shape, call, post=post, services="full", max_paths=4, world_cls=SolverWorld,
+                        interp_kwargs={"max_steps": 20000000, "max_loop": 200000})
+    if len(res) != 1 or res[0].kind != "valid":
+        return ("unsupported", "%s %s" % (res[0].kind, str(res[0].detail)[:200]))
+    return ("ok", res[0].detail)
+
+
+def text_solver_cost(repo):
+    return _text_cost_job(None)
+
+
 _TCACHE = {}
 
 
